@@ -67,7 +67,7 @@ func (tt *TypeTable) tagOf(t types.Type) int {
 	if id, ok := tt.tags[k]; ok {
 		return id
 	}
-	id := len(tt.tags) + 1
+	id := len(tt.tags) + 10 // tags 1..9 are reserved (1: package error values, 2: errors made by fmt.Errorf / errors.New)
 	tt.tags[k] = id
 	tt.tagNames = append(tt.tagNames, k)
 	return id
